@@ -7,6 +7,7 @@
 import GoBT.Tx.WireLemmas
 import GoBT.Json.Shapes
 import GoBT.Gen.Limits
+import GoBT.Script.IndexReviewLib
 namespace GoBT.C09
 open GoBT GoBT.Json
 
@@ -122,5 +123,9 @@ theorem node_json_input_txid (i : Option NodeIn) (inp : Input) (h : nodeInToInpu
 
 /-! ### non-vacuity: a prefix claiming 2^64-1 script bytes with 3 bytes following -/
 example : readBytesRequested (2 ^ 64 - 1) 3 = 65536 := by decide +kernel
+
+/-- ✓gen — every index / slice expression in the current sources of the root package belongs to a function reviewed in
+    GoBT/Script/IndexReviewLib.lean, with the number of expressions reviewed (a tripwire for model drift) -/
+theorem index_sites_reviewed_bt : GoBT.Script.indexReviewBtOk = true := by decide +kernel
 
 end GoBT.C09
